@@ -84,11 +84,16 @@ pub static DEADLOCK_PROPERTY: Mutex<String> = Mutex::new(String::new());
 /// The controller itself takes the filesystem's lock for that; if a parked thread holds the lock
 /// across a yield point (e.g. a nested acquisition) the controller would block for ever, so a
 /// monitor thread watches this table.
-static OBSERVING: Mutex<Option<HashMap<std::thread::ThreadId, (std::time::Instant, String)>>> = Mutex::new(None);
+static OBSERVING: Mutex<Option<HashMap<std::thread::ThreadId, (std::time::Instant, String)>>> =
+    Mutex::new(None);
 
 fn observing<T>(what: impl FnOnce() -> String, f: impl FnOnce() -> T) -> T {
     let id = std::thread::current().id();
-    OBSERVING.lock().unwrap().get_or_insert_with(HashMap::new).insert(id, (std::time::Instant::now(), what()));
+    OBSERVING
+        .lock()
+        .unwrap()
+        .get_or_insert_with(HashMap::new)
+        .insert(id, (std::time::Instant::now(), what()));
     let r = f();
     OBSERVING.lock().unwrap().as_mut().unwrap().remove(&id);
     r
@@ -209,7 +214,10 @@ pub fn run_schedule<P: Program>(prog: &P, prefix: &[usize]) -> Execution<P> {
                 let mut st = shared.m.lock().unwrap();
                 let mut waited = Duration::ZERO;
                 while st.turn.is_some() {
-                    let (g, to) = shared.cv.wait_timeout(st, Duration::from_millis(500)).unwrap();
+                    let (g, to) = shared
+                        .cv
+                        .wait_timeout(st, Duration::from_millis(500))
+                        .unwrap();
                     st = g;
                     if to.timed_out() {
                         waited += Duration::from_millis(500);
@@ -219,7 +227,9 @@ pub fn run_schedule<P: Program>(prog: &P, prefix: &[usize]) -> Execution<P> {
                         }
                     }
                 }
-                let en: Vec<usize> = (0..n).filter(|i| st.status[*i] != Status::Finished).collect();
+                let en: Vec<usize> = (0..n)
+                    .filter(|i| st.status[*i] != Status::Finished)
+                    .collect();
                 (en, st.pc.clone(), st.label.clone())
             };
             if deadlock {
@@ -235,7 +245,18 @@ pub fn run_schedule<P: Program>(prog: &P, prefix: &[usize]) -> Execution<P> {
             }
             // state = shared filesystem state + per-thread program counters, labels and records
             let mut h = std::collections::hash_map::DefaultHasher::new();
-            observing(|| format!("{} after schedule {:?}, threads parked at {:?}", prog.describe(), trace.iter().map(|s| s.chosen).collect::<Vec<_>>(), labels), || prog.state_hash(&sys)).hash(&mut h);
+            observing(
+                || {
+                    format!(
+                        "{} after schedule {:?}, threads parked at {:?}",
+                        prog.describe(),
+                        trace.iter().map(|s| s.chosen).collect::<Vec<_>>(),
+                        labels
+                    )
+                },
+                || prog.state_hash(&sys),
+            )
+            .hash(&mut h);
             pcs.hash(&mut h);
             labels.hash(&mut h);
             for r in &recs {
@@ -245,7 +266,10 @@ pub fn run_schedule<P: Program>(prog: &P, prefix: &[usize]) -> Execution<P> {
             let k = trace.len();
             let chosen = if k < prefix.len() {
                 if !enabled.contains(&prefix[k]) {
-                    divergence = Some(format!("schedule prefix asks for thread {} at step {} but enabled = {:?}", prefix[k], k, enabled));
+                    divergence = Some(format!(
+                        "schedule prefix asks for thread {} at step {} but enabled = {:?}",
+                        prefix[k], k, enabled
+                    ));
                     enabled[0]
                 } else {
                     prefix[k]
@@ -293,7 +317,12 @@ pub struct ExploreStats {
 
 /// Depth-first enumeration of schedules with visited-state pruning.  `check` is called for
 /// every complete execution.  `bound`: maximal number of preemptions (None = unbounded).
-pub fn explore<P: Program>(prog: &P, bound: Option<usize>, max_execs: u64, mut check: impl FnMut(&Execution<P>, &[usize])) -> ExploreStats {
+pub fn explore<P: Program>(
+    prog: &P,
+    bound: Option<usize>,
+    max_execs: u64,
+    mut check: impl FnMut(&Execution<P>, &[usize]),
+) -> ExploreStats {
     let mut stats = ExploreStats {
         complete: true,
         bound,
@@ -312,7 +341,10 @@ pub fn explore<P: Program>(prog: &P, bound: Option<usize>, max_execs: u64, mut c
         stats.executions += 1;
         stats.scheduling_points += ex.trace.len() as u64;
         if let Some(d) = &ex.divergence {
-            eprintln!("MACHINERY: nondeterministic replay of a schedule prefix: {}", d);
+            eprintln!(
+                "MACHINERY: nondeterministic replay of a schedule prefix: {}",
+                d
+            );
             std::process::exit(2);
         }
         let choices: Vec<usize> = ex.trace.iter().map(|s| s.chosen).collect();
@@ -320,7 +352,9 @@ pub fn explore<P: Program>(prog: &P, bound: Option<usize>, max_execs: u64, mut c
         // preemptions used before each step
         let mut used = vec![0usize; ex.trace.len() + 1];
         for i in 0..ex.trace.len() {
-            let pre = i > 0 && ex.trace[i].chosen != ex.trace[i - 1].chosen && ex.trace[i].enabled.contains(&ex.trace[i - 1].chosen);
+            let pre = i > 0
+                && ex.trace[i].chosen != ex.trace[i - 1].chosen
+                && ex.trace[i].enabled.contains(&ex.trace[i - 1].chosen);
             used[i + 1] = used[i] + pre as usize;
         }
         stats.max_preemptions_used = stats.max_preemptions_used.max(used[ex.trace.len()]);
@@ -336,7 +370,9 @@ pub fn explore<P: Program>(prog: &P, bound: Option<usize>, max_execs: u64, mut c
                 if *alt == st.chosen {
                     continue;
                 }
-                let pre = i > 0 && st.enabled.contains(&ex.trace[i - 1].chosen) && *alt != ex.trace[i - 1].chosen;
+                let pre = i > 0
+                    && st.enabled.contains(&ex.trace[i - 1].chosen)
+                    && *alt != ex.trace[i - 1].chosen;
                 let cost = used[i] + pre as usize;
                 if let Some(b) = bound {
                     if cost > b {
